@@ -392,9 +392,30 @@ impl UpdateHandle {
         let mut path_proof_offset = 0;
         let mut witnessed_start = 0;
 
+        // Workers finish in arbitrary order, but the witnessed operations below are attributed
+        // to paths by walking `read_write` in key order. Process the outputs in the order of the
+        // key ranges they cover.
+        let mut outputs = Vec::with_capacity(self.num_workers);
         for _ in 0..self.num_workers {
-            let output = join_task(&self.worker_rx)?;
+            outputs.push(join_task(&self.worker_rx)?);
+        }
+        outputs.sort_by(|a, b| {
+            let first_path = |o: &WorkerOutput| {
+                o.witnessed_paths
+                    .as_ref()
+                    .and_then(|paths| paths.first())
+                    .map(|(path, _, _)| path.path.path().to_bitvec())
+            };
+            match (first_path(a), first_path(b)) {
+                (Some(a), Some(b)) => a.cmp(&b),
+                // outputs without witnessed paths contribute nothing; keep them first.
+                (None, Some(_)) => std::cmp::Ordering::Less,
+                (Some(_), None) => std::cmp::Ordering::Greater,
+                (None, None) => std::cmp::Ordering::Equal,
+            }
+        });
 
+        for output in outputs {
             if let Some(root) = output.root {
                 assert!(new_root.is_none());
                 new_root = Some(root);
